@@ -5,7 +5,7 @@ from hypothesis import strategies as st
 
 from vf import gen
 from vf.core import Clause, Property, Violation
-from vf.osk import IS_TM, eff_limit, eff_tau, mk_model, mk_teams, outcome_values, rate
+from vf.osk import IS_TM, eff_limit, eff_tau, mk_model, mk_teams, model_for, outcome_values, rate
 from vf.refmodel import compare, reference
 from vf.league import league_class
 from vf.stateful import machine_factory, replayer
@@ -18,7 +18,7 @@ def check_c02(case, ctx):
     cfg, teams, call = case["cfg"], case["teams"], case["call"]
     kind = cfg["kind"]
     n = len(teams)
-    model = mk_model(cfg)
+    model = model_for(cfg, call)
     clones = call.get("clone_ids")  # distinct objects sharing one id (deepcopy clones of a template): only the names tell them apart
     objs = mk_teams(model, teams, names=True, clone_ids=clones)
     ids = [[p.id for p in t] for t in objs]
